@@ -398,6 +398,19 @@ pub fn check_jacobian<T: Sc>(prob: &dyn Prob<T>, lin: &Lin, c: &Mat, jac: &DMatr
             skipped.push("c03:nonfinite-derivative".into());
             continue;
         }
+        // the formula's own intermediates W∘D_k and (W∘D_k)·C must be representable in the scalar
+        // type under test: an f32 problem whose weighted derivative exceeds f32::MAX (seen: entries
+        // of 1e38 times a weight of 950) cannot deliver the finite column the f64 oracle computes
+        if let Ok(dk) = prob.dphi(k) {
+            let wd = Mat::from_na(&dk).row_scale(&lin.w);
+            let abs_wd = Mat::from_fn(wd.r, wd.c, |i, j| wd.at(i, j).abs());
+            let abs_c = Mat::from_fn(c.r, c.c, |i, j| c.at(i, j).abs());
+            let big = abs_wd.d.iter().chain(abs_wd.mul(&abs_c).d.iter()).fold(0.0f64, |a, b| a.max(*b));
+            if !(big * (sh.n as f64) <= T::huge() / 4.0) {
+                skipped.push("c03:beyond-range-of-scalar-type".into());
+                continue;
+            }
+        }
         // reported column k, reshaped to n x s (block s of the column belongs to rhs s)
         let jk = Mat::from_fn(sh.n, sh.s, |i, s| jac[(i + s * sh.n, k)].f());
         let pv = lin.svd.project_range(&v, lin.m);
